@@ -424,7 +424,7 @@ READER_METHODS = ("get", "contains_key", "size_of", "range", "prefix", "iter", "
                   "last_key_value", "multi_get", "get_internal_entry")
 
 
-def c06h(prog, R, L, rid="C06.h"):
+def c06h(prog, R, L, rid="C06.h", methods=None, share_pin=True):
     """A read operation takes the version-history lock once: everything it looks at (memtables, tables, the blob files its
     pointers resolve against) comes from that one SuperVersion.  A second acquisition on the same path can observe a
     later version - a compaction that committed in between - and mixes two views."""
@@ -433,9 +433,9 @@ def c06h(prog, R, L, rid="C06.h"):
     for p in prog.fns:
         if p.startswith(("abstract_tree::AbstractTree::", "<tree::Tree as abstract_tree::AbstractTree>::",
                          "<blob_tree::BlobTree as abstract_tree::AbstractTree>::", "<any_tree::AnyTree as abstract_tree::AbstractTree>::")) \
-                and p.split("::")[-1] in READER_METHODS:
+                and p.split("::")[-1] in (methods or READER_METHODS):
             roots.append(p)
-    if len(roots) < 15:
+    if methods is None and len(roots) < 15:
         r.anchor_missing("reader methods of AbstractTree (found %d, confirmed 23)" % len(roots))
         return
     reach, _ = prog.reachable_fns(roots)
@@ -454,7 +454,9 @@ def c06h(prog, R, L, rid="C06.h"):
                 "first, e.g. a value pointer read from one version is resolved against another" %
                 ((short(twice[0][0].sres), short(twice[0][1].sres)) if twice else ("", "")), f.where(twice[0][1].bb if twice else None),
                 "%d site(s)" % len(sites))
-    r.floor(28)
+    r.floor(28 if methods is None else 2)
+    if not share_pin:
+        return
     # the blob read path resolves against the SuperVersion it read (shared with C02.d / C08.b)
     from rules.props import c02
     c02.c02d(prog, R, rid="C06.i")
